@@ -94,6 +94,8 @@ func RaceMain(t *testing.T) {
 		synctest.Test(t, func(t *testing.T) {
 			if os.Getenv("VERIF_RACE_FOCUS") == "C07" {
 				raceRunC07(t, rng, dir)
+			} else if os.Getenv("VERIF_RACE_FOCUS") == "C19" {
+				raceRunC19(rng)
 			} else {
 				raceRun(t, rng, dir)
 			}
@@ -402,4 +404,44 @@ func archiveAligned(body []byte) string {
 		}
 	}
 	return ""
+}
+
+// raceRunC19 is the free-running part of C19: callers that really overlap
+// inside Allow. A fresh limiter with a window that never ends (one hour of
+// bubble time) is hit by 1-128 goroutines released together, each making one
+// to three calls. Whatever the schedule, exactly min(calls, limit) calls must
+// be admitted: more is over-admission, fewer is a wrongful refusal (fewer than
+// the limit were admitted before it). Order independent, hence certain.
+func raceRunC19(rng *rand.Rand) {
+	for round := 0; round < 300; round++ {
+		limit := 1 + rng.IntN(64)
+		lim := glow.NewRateLimiter(limit, time.Hour)
+		callers := 1 + rng.IntN(2*limit)
+		per := 1 + rng.IntN(3)
+		var admitted atomic.Int64
+		var wg sync.WaitGroup
+		start := make(chan struct{})
+		for c := 0; c < callers; c++ {
+			wg.Add(1)
+			go func() {
+				defer wg.Done()
+				<-start
+				for k := 0; k < per; k++ {
+					if lim.Allow() {
+						admitted.Add(1)
+					}
+				}
+			}()
+		}
+		close(start)
+		wg.Wait()
+		want := int64(min(callers*per, limit))
+		if got := admitted.Load(); got > want {
+			fmt.Printf("RACE-MODE-VIOLATION C19.over@parallel %d of %d overlapping calls were admitted by a fresh limiter with limit %d per hour\n", got, callers*per, limit)
+			return
+		} else if got < want {
+			fmt.Printf("RACE-MODE-VIOLATION C19.starve@parallel only %d of %d overlapping calls were admitted by a fresh limiter with limit %d per hour: %d calls were refused although fewer than the limit had been admitted\n", got, callers*per, limit, want-got)
+			return
+		}
+	}
 }
